@@ -2,10 +2,10 @@
    the real BaseExporter by harness/C03/shutdown_test.go.
    Case term:  (cfg, phases, final)
      cfg    : [persistent; batch; timer; retry mode; consumers; min_size; wait_for_result;
-               queue-size snapshot write fails; storage Close fails]   (list nat)
+               queue-size snapshot write fails; storage Close fails; max_size; has a queue sender]   (list nat)
      phases : list (action, events observed until quiescence after the action)
               action = (0, id, items) offer | (1, first id of the call, outcome 0 ok/1 transient/2 permanent)
-                       release | (2, 0, 0) call Shutdown | (2, m, 1|2) call Shutdown, race observed (2: it returned an error; see Model.v) | (3, 0, 0) the flush timer fires
+                       release | (2, 0, 0) call Shutdown | (2, m, 1|2) call Shutdown, race observed (2: it returned an error; see Model.v) | (3, 0, 0) the flush timer fires | (4, id, 0) Send (exporter without queue)
               event  = (kind, sorted ids), sorted within the phase (kinds: see Model.v [event])
      final  : (sorted ids whose body is still in the storage, live helper goroutines at the end) *)
 From Verif Require Import Common.Base C03.Model.
@@ -17,8 +17,8 @@ Definition nz (n : nat) : bool := negb (Nat.eqb n 0).
 
 Definition hcfg_of (l : list nat) : option hcfg :=
   match l with
-  | [p; b; t; m; n; mn; w; fs; fc] =>
-      Some (mkH (mkCfg (nz p) (nz b) (nz t) (nz m) n (if nz b then 1 else 0)) m mn (nz w) (nz fs) (nz fc))
+  | [p; b; t; m; n; mn; w; fs; fc; mx; q] =>
+      Some (mkH (mkCfg (nz q) (nz p) (nz b) (nz t) (nz m) n (if nz b then 1 else 0) 32) m mn mx (nz w) (nz fs) (nz fc))
   | _ => None
   end.
 
@@ -32,6 +32,7 @@ Definition action_of (a : nat * nat * nat) : option action :=
   | (2, m, 2) => Some (AShutdownRace m true)
   | (2, _, _) => Some AShutdown
   | (3, _, _) => Some ATimerFire
+  | (4, i, _) => Some (ASend i)
   | _ => None
   end.
 
@@ -79,7 +80,9 @@ Definition check_case (c : ctype) : bool :=
 (* ---- which labels of the LTS do the replayed cases exercise?  (evidence: model_label_histogram) ---- *)
 Definition label_index (l : label) : nat :=
   match l with
-  | LOffer _ => 0 | LOfferFail _ => 1 | LTake => 2 | LConsExit => 3 | LAbsorb _ false => 4 | LAbsorb _ true => 5
+  | LOffer _ => 0 | LOfferFail _ => 1 | LTake => 2 | LConsExit => 3
+  | LAbsorb _ 1 true => 4 | LAbsorb _ 1 false => 5 | LAbsorb _ _ true => 27 | LAbsorb _ _ false => 28
+  | LSend _ => 29 | LNoQueue => 30
   | LSpawnC _ => 6 | LBegin _ => 7 | LEnd _ OOk => 8 | LEnd _ OTransient => 9 | LEnd _ OPermanent => 10
   | LRetryTimer _ => 11 | LRetryStop _ => 12 | LRetryGiveUp _ => 13 | LDone _ => 14
   | LTimerFire => 15 | LTimerSpawn => 16 | LTimerExit => 17
@@ -97,4 +100,4 @@ Definition case_labels (c : ctype) : list label :=
 
 Definition label_hist (cs : list ctype) : list nat :=
   let ls := flat_map case_labels cs in
-  map (fun k => length (filter (fun l => Nat.eqb (label_index l) k) ls)) (seq 0 27).
+  map (fun k => length (filter (fun l => Nat.eqb (label_index l) k) ls)) (seq 0 31).
